@@ -65,7 +65,7 @@ theorem created_pair_inv {name : Asset → String} {w w' : World} {s : Nat} {f :
           { a0 := a0, a1 := a1, pair := np, lp := nl, d0 := d0, d1 := d1, req := req,
             comm := c.getD defaultCommission } w0.registry } nl = 0 := by
     simp [supply]
-  refine ⟨⟨?_, hne, ?_, ?_, ?_, ?_, ?_, ?_, ?_, ?_, ?_, ?_⟩, hsup⟩
+  refine ⟨⟨?_, hne, ?_, ?_, ?_, ?_, ?_, ?_, ?_, ?_, ?_, ?_, ?_⟩, hsup⟩
   · exact ⟨_, if_pos rfl, rfl, rfl, rfl⟩
   · intro e
     exact (hlive a0 d0 nl hd0 e).1 rfl
@@ -101,6 +101,18 @@ theorem created_pair_inv {name : Asset → String} {w w' : World} {s : Nat} {f :
   · show np ≠ w0.router
     rw [sm.router]
     exact hn.npNotRouter
+  · -- the new LP token starts without allowances; on the existing tokens the fresh addresses have granted none
+    intro t T hT sp
+    have hT' : (if t = nl then some
+        ({ bal := fun _ => 0, allow := fun _ _ => none, supply := 0, minter := some np, decimals := ld.getD 6 } : Token)
+        else w0.tok t) = some T := hT
+    by_cases ht : t = nl
+    · rw [if_pos ht] at hT'
+      injection hT' with hT'
+      subst hT'
+      exact ⟨rfl, rfl⟩
+    · rw [if_neg ht, htok] at hT'
+      exact hn.noAllow t T hT' sp
 
 /-! ### preservation along histories -/
 
